@@ -190,8 +190,11 @@ def near_equal_case(ctx, idx, rng):
         lmax += 1
     L = int(rng.integers(2, lmax + 1))
     c = float(rng.uniform(0.3, 2.0)) * float(rng.choice([1, 1, 1e-6, 1e5]))
+    if idx % 3 == 0:
+        # near a special CONSTANT instead of near each other: 1 (1 + eps), 2 (1 + eps), 0.5 (1 + eps) -- a unit-coefficient shortcut decided with a tolerance
+        c = float(rng.choice([1.0, 1.0, 2.0, 0.5]))
     p = tuple(float(rng.choice([-1, 1])) * c * float(rng.choice([1, 1, 2, 0.5])) * (1 + float(rng.choice([0, 1e-12, -1e-9, 1e-7, 1e-6, -3e-6, 3e-6, 8e-6]))) for _ in range(3))
-    ctx.case((name, f'L{min(L, 4)}', 'near-equal-parameters'), sample={'model': name, 'L': L, 'params': p, 'd': d}, info={'model': name, 'L': L, 'params': p, 'd': d})
+    ctx.case((name, f'L{min(L, 4)}', 'near-equal-parameters' if idx % 3 else 'near-unit-parameters'), sample={'model': name, 'L': L, 'params': p, 'd': d}, info={'model': name, 'L': L, 'params': p, 'd': d})
     check_model(ctx, name, L, p, d)
 
 
